@@ -107,7 +107,7 @@ func (s *ScriptStream) fire(k int, f *Fault) {
 // Read implements io.Reader.
 func (s *ScriptStream) Read(p []byte) (int, error) {
 	s.mu.Lock()
-	for len(s.in) == 0 && !s.inClosed && s.failed == nil && !s.closed {
+	for len(s.in) == 0 && !s.inClosed && s.failed == nil && !s.closed && !s.armedFail {
 		s.waiters++
 		s.cond.Broadcast()
 		s.cond.Wait()
@@ -206,6 +206,10 @@ func (s *ScriptStream) Write(p []byte) (int, error) {
 	if s.closed {
 		s.mu.Unlock()
 		return 0, ErrStreamClosed
+	}
+	if s.armedFail && s.failed == nil {
+		s.failed = ErrStreamFailed
+		s.cond.Broadcast()
 	}
 	if s.failed != nil || s.inClosed {
 		s.mu.Unlock()
